@@ -1,7 +1,599 @@
-//! C13 — not built yet.
+//! C13 — parser shortcuts do not change the result.
+//!
+//! Direct observation: every input is parsed with the shortcuts on (baseline, dialect instance shared by
+//! all worker threads) and again with the parse cache off, pruning off, both off (thread-local
+//! `cfg(sqruff_verif)` switches), on a fresh dialect instance, and a second time on the shared instance;
+//! the serialised trees must be identical.  A separate phase parses the same inputs concurrently on
+//! several threads that share one dialect instance.
+//! Correspondence: `longest_match` calls recorded through the `verif_lm` recorder are replayed on the
+//! Gallina model (Cache/Model.v): evaluated options, cache hits, chosen option.
+//! Static part: the cache keys of all nodes that can be options of `longest_match` (set K) are written
+//! to coq/gen/Keys_<d>.v where `keys_inj_b` is evaluated by vm_compute.
+use std::collections::{BTreeMap, BTreeSet, HashMap};
+use std::hash::{Hash, Hasher};
+use std::sync::Arc;
+
+use serde_json::{Value, json};
+use sqruff_lib_core::dialects::base::Dialect;
+use sqruff_lib_core::parser::match_algorithms::verif_switches::{self, LmFrame};
+
+use crate::c14::{Graph, Node, dialect_of, parse_with};
 use crate::common::*;
 
-pub fn main(_args: &Args) {
-    eprintln!("c13: not built yet");
-    std::process::exit(2);
+#[derive(Clone)]
+struct Item {
+    dialect: String,
+    cls: &'static str,
+    name: String,
+    sql: String,
+}
+
+fn h64(s: &str) -> u64 {
+    let mut h = std::collections::hash_map::DefaultHasher::new();
+    s.hash(&mut h);
+    h.finish()
+}
+
+/// class of a parse outcome: tree hash, or the abort class
+fn outcome(r: &Result<String, String>) -> String {
+    match r {
+        Ok(t) => format!("tree:{:016x}", h64(t)),
+        Err(m) => {
+            if let Some(i) = m.find("Grammar refers to") {
+                let rest = &m[i..];
+                let name = rest.split('\'').nth(1).unwrap_or("?");
+                format!("abort-dangling:{}", name)
+            } else {
+                format!("abort:{}", trunc(m, 80))
+            }
+        }
+    }
+}
+
+fn words(sql: &str) -> Vec<String> {
+    // split into alternating runs of whitespace / non-whitespace, keeping everything
+    let mut out = vec![];
+    let mut cur = String::new();
+    let mut ws: Option<bool> = None;
+    for ch in sql.chars() {
+        let w = ch.is_whitespace();
+        if ws.is_some() && ws != Some(w) {
+            out.push(std::mem::take(&mut cur));
+        }
+        ws = Some(w);
+        cur.push(ch);
+    }
+    if !cur.is_empty() {
+        out.push(cur);
+    }
+    out
+}
+
+const KEYWORDS: &[&str] = &["SELECT", "FROM", "WHERE", "(", ")", ",", "AND", "JOIN", "ON", "AS", "BY", "GROUP", "ORDER", ";", "CASE", "END", "NOT", "NULL", "UNION", "WITH", "INSERT", "INTO", "VALUES", "CREATE", "TABLE", "x", "1", "'s'", "*", "."];
+
+fn corrupt(rng: &mut Rng, sql: &str) -> String {
+    let mut w = words(sql);
+    let code: Vec<usize> = (0..w.len()).filter(|&i| !w[i].trim().is_empty()).collect();
+    if code.is_empty() {
+        return sql.to_string();
+    }
+    let n = rng.range(1, 3);
+    for _ in 0..n {
+        let code: Vec<usize> = (0..w.len()).filter(|&i| !w[i].trim().is_empty()).collect();
+        if code.is_empty() {
+            break;
+        }
+        let i = *rng.pick(&code);
+        match rng.below(6) {
+            0 => {
+                w.remove(i);
+            }
+            1 => {
+                let x = w[i].clone();
+                w.insert(i, " ".into());
+                w.insert(i, x);
+            }
+            2 => {
+                let j = *rng.pick(&code);
+                w.swap(i, j);
+            }
+            3 => {
+                w.insert(i, " ".into());
+                w.insert(i, rng.pick(KEYWORDS).to_string());
+            }
+            4 => {
+                w.truncate(i + 1);
+            }
+            _ => {
+                // split a word in the middle / drop a character
+                let s = w[i].clone();
+                if s.len() > 1 && s.is_ascii() {
+                    let k = rng.range(1, s.len() - 1);
+                    w[i] = format!("{} {}", &s[..k], &s[k..]);
+                }
+            }
+        }
+    }
+    w.concat()
+}
+
+fn gen_items(args: &Args) -> Vec<Item> {
+    let mut rng = Rng::new(args.seed);
+    let files = corpus();
+    let snippets = rule_snippets();
+    let max_len = if args.thorough() { 6000 } else { 2500 };
+    let mut items = vec![];
+    // corpus under its own dialect
+    for f in &files {
+        if f.text.len() <= max_len && DIALECTS.contains(&f.dialect.as_str()) {
+            items.push(Item { dialect: f.dialect.clone(), cls: "corpus", name: f.name.clone(), sql: f.text.clone() });
+        }
+    }
+    // cross-dialect: every file under k other dialects
+    let k_cross = if args.thorough() { 12 } else { 1 };
+    for f in &files {
+        if f.text.len() > max_len {
+            continue;
+        }
+        let mut others: Vec<&str> = DIALECTS.iter().copied().filter(|d| *d != f.dialect).collect();
+        rng.shuffle(&mut others);
+        for d in others.into_iter().take(k_cross) {
+            items.push(Item { dialect: d.to_string(), cls: "cross-dialect", name: f.name.clone(), sql: f.text.clone() });
+        }
+    }
+    // rule snippets under a random dialect
+    let n_snip = if args.thorough() { snippets.len() } else { snippets.len().min(400) };
+    for (name, s) in snippets.iter().take(n_snip) {
+        if s.len() <= max_len {
+            let d = DIALECTS[rng.below(DIALECTS.len())];
+            items.push(Item { dialect: d.to_string(), cls: "rule-snippet", name: name.clone(), sql: s.clone() });
+        }
+    }
+    // corrupted corpus files
+    let n_corrupt = if args.thorough() { 6000 } else { 1200 };
+    let small: Vec<&CorpusFile> = files.iter().filter(|f| f.text.len() <= 1500 && DIALECTS.contains(&f.dialect.as_str())).collect();
+    for i in 0..n_corrupt {
+        let f = small[rng.below(small.len())];
+        let d = if rng.chance(3, 4) { f.dialect.clone() } else { DIALECTS[rng.below(DIALECTS.len())].to_string() };
+        let sql = corrupt(&mut rng, &f.text);
+        items.push(Item { dialect: d, cls: "corrupted", name: format!("{}#{}", f.name, i), sql });
+    }
+    // hand-written stress inputs for the shortcut mechanisms
+    for d in DIALECTS {
+        for (i, s) in [
+            "SELECT a, b, c FROM t WHERE a IN (1, 2, 3) AND b = (SELECT max(b) FROM u WHERE u.a = t.a)\n",
+            "SELECT a FROM (SELECT a FROM (SELECT a FROM t) x) y ORDER BY a, a, a\n",
+            "SELECT CASE WHEN a THEN b WHEN c THEN d ELSE e END, CASE WHEN a THEN b END FROM t\n",
+            "SELECT f(a, g(b, h(c))), f(a, g(b, h(c))) FROM t JOIN u ON t.a = u.a JOIN v ON u.a = v.a\n",
+            "SELECT 1;\nSELECT 1;\nSELECT 1;\n",
+            "select a from t where a = 1 or a = 1 or a = 1 or (a = 1 and (a = 1 or a = 1))\n",
+            "",
+            ";;\n",
+            "SELECT\n",
+            ")(\n",
+        ]
+        .iter()
+        .enumerate()
+        {
+            items.push(Item { dialect: d.to_string(), cls: "stress", name: format!("stress{}", i), sql: s.to_string() });
+        }
+    }
+    items
+}
+
+struct Shared {
+    dialects: HashMap<String, Arc<Dialect>>,
+}
+
+// ---- watchdog: a parse that does not come back is itself a difference (the baseline did)
+static WATCH: std::sync::Mutex<Option<HashMap<std::thread::ThreadId, (std::time::Instant, Value)>>> = std::sync::Mutex::new(None);
+fn watch_set(v: Value) {
+    if let Some(m) = WATCH.lock().unwrap().as_mut() {
+        m.insert(std::thread::current().id(), (std::time::Instant::now(), v));
+    }
+}
+fn watch_clear() {
+    if let Some(m) = WATCH.lock().unwrap().as_mut() {
+        m.remove(&std::thread::current().id());
+    }
+}
+fn watchdog(out_path: std::path::PathBuf, limit_s: u64) {
+    *WATCH.lock().unwrap() = Some(HashMap::new());
+    std::thread::spawn(move || {
+        loop {
+            std::thread::sleep(std::time::Duration::from_secs(2));
+            let stuck: Option<Value> = WATCH.lock().unwrap().as_ref().and_then(|m| m.values().find(|(t, _)| t.elapsed().as_secs() > limit_s).map(|(_, v)| v.clone()));
+            if let Some(v) = stuck {
+                use std::io::Write;
+                let key = format!("hang:{}:{}:{:016x}", v["variant"].as_str().unwrap_or("?"), v["dialect"].as_str().unwrap_or("?"), h64(v["sql"].as_str().unwrap_or("")));
+                let mut f = std::fs::OpenOptions::new().create(true).write(true).truncate(true).open(&out_path).unwrap();
+                let _ = writeln!(f, "{}", json!({"t":"direct_fail","cls":"watchdog","key":key,"msg":format!("parse did not finish within {} s (the harness stopped here; other inputs were not run)", limit_s),"input":v}));
+                let _ = writeln!(f, "{}", json!({"t":"counts","v":{},"direct_by_class":{"watchdog":1}}));
+                let _ = writeln!(f, "{}", json!({"t":"done","cases":0,"direct":1,"direct_fail":1}));
+                let _ = f.flush();
+                std::process::exit(0);
+            }
+        }
+    });
+}
+
+fn watched_parse(d: &Dialect, it: &Item, variant: &str) -> String {
+    watch_set(json!({"dialect": it.dialect, "sql": it.sql, "name": it.name, "variant": variant}));
+    let o = outcome(&parse_with(d, &it.sql));
+    watch_clear();
+    o
+}
+
+fn run_item(sh: &Shared, it: &Item, buf: &mut Buf) {
+    let shared = &sh.dialects[&it.dialect];
+    let input = json!({"dialect": it.dialect, "sql": it.sql, "name": it.name});
+    verif_switches::set(false, false);
+    let base = watched_parse(shared, it, "baseline");
+    let mut variants: Vec<(&str, String)> = vec![];
+    verif_switches::set(true, false);
+    variants.push(("cache-off", watched_parse(shared, it, "cache-off")));
+    verif_switches::set(false, true);
+    variants.push(("prune-off", watched_parse(shared, it, "prune-off")));
+    verif_switches::set(true, true);
+    variants.push(("both-off", watched_parse(shared, it, "both-off")));
+    verif_switches::set(false, false);
+    variants.push(("repeat", watched_parse(shared, it, "repeat")));
+    let fresh = dialect_of(&it.dialect);
+    variants.push(("fresh-dialect", watched_parse(&fresh, it, "fresh-dialect")));
+    let nontrivial = base.starts_with("tree:") && it.sql.split_whitespace().count() >= 4;
+    if nontrivial {
+        buf.count("nontrivial_inputs", 1);
+    }
+    buf.count(&format!("inputs_{}", it.cls), 1);
+    if base.starts_with("abort") {
+        buf.count("baseline_aborts", 1);
+    }
+    for (v, o) in variants {
+        let same = o == base;
+        // an abort in Dialect::ref is the C14 defect (dangling keyword reference), not a shortcut
+        // difference: with a shortcut off the parser may enter an alternative it otherwise skips
+        let masked = !same && (o.starts_with("abort-dangling:") || base.starts_with("abort-dangling:"));
+        if masked {
+            buf.count("differences_masked_by_C14_dangling_abort", 1);
+            buf.direct(&format!("{}:{}", it.cls, v), true, "", "", Value::Null);
+            continue;
+        }
+        let key = format!("{}:{}:{:016x}", v, it.dialect, h64(&it.sql));
+        let mut inp = input.clone();
+        inp["variant"] = json!(v);
+        inp["baseline"] = json!(base);
+        inp["observed"] = json!(o);
+        buf.direct(&format!("{}:{}", it.cls, v), same, &key, &format!("parse result with {} differs from the baseline (shortcuts on, shared dialect)", v), inp);
+    }
+}
+
+// ------------------------------------------------------------------------------------ correspondence: recorded longest_match calls
+fn g_res(r: &(u32, bool, u32)) -> String {
+    format!("({},{},{})", r.0, g_bool(r.1), r.2)
+}
+
+fn frame_case(f: &LmFrame, it: &Item, buf: &mut Buf) {
+    // intern the raw strings of this frame
+    let mut ids: HashMap<String, usize> = HashMap::new();
+    let mut intern = |s: &str| -> usize {
+        let n = ids.len();
+        *ids.entry(s.to_string()).or_insert(n)
+    };
+    let tok = match &f.tok {
+        Some((raw, types)) => format!("(Some ({},{}))", intern(raw), g_list(types.iter().map(|t| t.to_string()))),
+        None => "None".to_string(),
+    };
+    let options = g_list(f.options.iter().map(|(k, h)| {
+        let hs = match h {
+            Some((raws, types)) => format!("(Some ({},{}))", g_list(raws.iter().map(|r| intern(r).to_string())), g_list(types.iter().map(|t| t.to_string()))),
+            None => "None".to_string(),
+        };
+        format!("({},{})", k, hs)
+    }));
+    let results = g_list(f.evals.iter().map(|(k, _, r)| format!("({},{})", k, g_res(r))));
+    let cached = g_list(f.evals.iter().filter(|e| e.1).map(|e| e.0.to_string()));
+    let probes = g_list(f.probes.iter().map(|(k, b)| format!("({},{})", k, g_bool(*b))));
+    let args = format!(
+        "({},{},{},{},{},{},{},{},{},{},{})",
+        f.idx,
+        f.max_idx,
+        f.loc,
+        g_bool(f.has_terms),
+        g_bool(!f.cache_off),
+        g_bool(!f.prune_off),
+        tok,
+        options,
+        results,
+        cached,
+        probes
+    );
+    let fresh = g_list(f.evals.iter().filter(|e| !e.1).map(|e| e.0.to_string()));
+    let exp = format!("({},{},{})", g_opt(f.chosen.map(|k| k.to_string())), g_res(&f.result), fresh);
+    let hits = f.evals.iter().filter(|e| e.1).count();
+    let pruned = f.options.len() - f.avail.len();
+    let nontrivial = f.options.len() >= 2 && (hits > 0 || pruned > 0 || !f.probes.is_empty());
+    let cls = format!(
+        "{}{}{}{}",
+        if f.cache_off { "cache-off" } else { "cache-on" },
+        if f.prune_off { "/prune-off" } else { "/prune-on" },
+        if hits > 0 { "/hit" } else { "" },
+        if pruned > 0 { "/pruned" } else { "" }
+    );
+    let sample = json!({"input": {"dialect": it.dialect, "sql": it.sql, "name": it.name},
+        "call": {"idx": f.idx, "max_idx": f.max_idx, "loc": f.loc, "options": f.options.len(), "available": f.avail.len(), "evaluated": f.evals.len(), "hits": hits, "probes": f.probes.len(), "chosen": f.chosen, "result": [f.result.0, f.result.1, f.result.2]}});
+    buf.case("lm", &cls, nontrivial, args, exp, sample);
+}
+
+fn record_item(sh: &Shared, it: &Item, per_parse: usize, buf: &mut Buf) {
+    let shared = &sh.dialects[&it.dialect];
+    let mut rng = Rng::new(h64(&it.sql));
+    // monitor of the cache invariant (H_mfn / H_ctx): every cache hit of one ordinary parse is
+    // compared with what matching the same option at the same place returns now
+    verif_switches::set(false, false);
+    verif_switches::audit_start();
+    watch_set(json!({"dialect": it.dialect, "sql": it.sql, "name": it.name, "variant": "audit"}));
+    let _ = parse_with(shared, &it.sql);
+    watch_clear();
+    let (hits, bad, ex) = verif_switches::audit_take();
+    buf.count("cache_hits_audited", hits);
+    buf.count("cache_hits_differing_from_recomputation", bad);
+    buf.hyp("H_mfn_cache_hit_equals_recomputation(Inv)", "diagnostic", bad == 0, json!({"dialect": it.dialect, "sql": trunc(&it.sql, 400), "hits": hits, "differing": bad, "first": ex}));
+    for (co, po) in [(false, false), (true, true), (false, true)] {
+        verif_switches::set(co, po);
+        verif_switches::rec_start(4000);
+        watch_set(json!({"dialect": it.dialect, "sql": it.sql, "name": it.name, "variant": "recording"}));
+        let _ = parse_with(shared, &it.sql);
+        watch_clear();
+        let frames = verif_switches::rec_take();
+        verif_switches::set(false, false);
+        buf.count("lm_calls_recorded", frames.len());
+        let interesting: Vec<&LmFrame> = frames.iter().filter(|f| f.options.len() >= 2 && (f.evals.iter().any(|e| e.1) || f.avail.len() < f.options.len() || !f.probes.is_empty())).collect();
+        let mut chosen: Vec<&LmFrame> = vec![];
+        for _ in 0..per_parse.min(interesting.len()) {
+            chosen.push(interesting[rng.below(interesting.len())]);
+        }
+        for _ in 0..(per_parse / 3).min(frames.len()) {
+            chosen.push(&frames[rng.below(frames.len())]);
+        }
+        for f in chosen {
+            frame_case(f, it, buf);
+        }
+    }
+}
+
+// ------------------------------------------------------------------------------------ static: key injectivity on K
+/// K: the nodes that can be direct options of `longest_match` (elements of AnyNumberOf/Delimited,
+/// delimiters, every terminator, the NonCodeMatcher pushed by Delimited).
+pub fn option_set(g: &Graph, reach: &[usize]) -> BTreeSet<usize> {
+    let mut k = BTreeSet::new();
+    for &n in reach {
+        match &g.nodes[n] {
+            Node::AnyOf { elems, terms, .. } => {
+                k.extend(elems.iter().copied());
+                k.extend(terms.iter().copied());
+            }
+            Node::Delim { delim, elems, terms } => {
+                k.insert(*delim);
+                k.extend(elems.iter().copied());
+                k.extend(terms.iter().copied());
+            }
+            Node::Ref { terms, .. } | Node::Seq { terms, .. } | Node::Brack { terms, .. } | Node::Anything { terms } => k.extend(terms.iter().copied()),
+            _ => {}
+        }
+        // Bracketed pushes its end bracket as a terminator
+        if let Node::Brack { .. } = &g.nodes[n] {
+            let (refs, _) = g.node_refs(n);
+            if refs.len() >= 2 {
+                if let Some(e) = g.deref(refs[1]) {
+                    k.insert(e);
+                }
+            }
+        }
+    }
+    k
+}
+
+/// behaviour class of a node: the smallest node id among the nodes that share its cache key and
+/// have the same `Debug` rendering (a struct `clone()` keeps the key and every field; `copy()`
+/// keeps the key but changes elements/terminators).
+pub fn behaviour_classes(g: &Graph, nodes: &BTreeSet<usize>) -> HashMap<usize, usize> {
+    let mut by_key: BTreeMap<u32, Vec<usize>> = BTreeMap::new();
+    for &n in nodes {
+        if let Some(key) = g.keys[n] {
+            by_key.entry(key).or_default().push(n);
+        }
+    }
+    let mut cls = HashMap::new();
+    for (_, ns) in by_key {
+        if ns.len() == 1 {
+            cls.insert(ns[0], ns[0]);
+            continue;
+        }
+        let mut seen: Vec<(String, usize)> = vec![];
+        for n in ns {
+            let d = format!("{:?}", g.handles[n]);
+            match seen.iter().find(|(s, _)| *s == d) {
+                Some((_, rep)) => {
+                    cls.insert(n, *rep);
+                }
+                None => {
+                    seen.push((d, n));
+                    cls.insert(n, n);
+                }
+            }
+        }
+    }
+    cls
+}
+
+fn static_keys(out: &mut Out, gen_dir: &str) {
+    let mut buf = Buf::default();
+    for d in DIALECTS {
+        let dialect = dialect_of(d);
+        let g = Graph::build(d, &dialect);
+        let (order, _) = g.reach();
+        let k = option_set(&g, &order);
+        let mut by_key: BTreeMap<u32, Vec<usize>> = BTreeMap::new();
+        let mut nokey = vec![];
+        for &n in &k {
+            match g.keys[n] {
+                Some(key) => by_key.entry(key).or_default().push(n),
+                None => nokey.push(n),
+            }
+        }
+        let cls = behaviour_classes(&g, &k);
+        let clashes: Vec<(u32, Vec<String>)> = by_key
+            .iter()
+            .filter(|(_, v)| v.iter().map(|n| cls[n]).collect::<BTreeSet<_>>().len() > 1)
+            .map(|(k, v)| (*k, v.iter().map(|n| format!("{}#{}(class {})", g.describe(*n), n, cls[n])).collect()))
+            .collect();
+        let cloned_groups = by_key.values().filter(|v| v.len() > 1).count();
+        buf.count("K_key_groups_with_identical_clones", cloned_groups - clashes.len());
+        // all reachable nodes sharing a key (copy() clones the key) - informational
+        let mut all_by_key: BTreeMap<u32, Vec<usize>> = BTreeMap::new();
+        for &n in &order {
+            if let Some(key) = g.keys[n] {
+                all_by_key.entry(key).or_default().push(n);
+            }
+        }
+        let shared_any = all_by_key.values().filter(|v| v.len() > 1).count();
+        buf.hyp("H_key_inj_on_option_set_K(static)", "diagnostic", clashes.is_empty(), json!({"dialect": d, "clashes": clashes}));
+        buf.count("option_set_K_nodes", k.len());
+        buf.count("K_nodes_without_cache_key", nokey.len());
+        buf.count("reachable_key_groups_shared_by_several_nodes(copy)", shared_any);
+        let mut t = String::new();
+        t.push_str("(* generated by `sqv c13`: (behaviour class, cache key) of the nodes that can be options of longest_match;\n   class = representative of the nodes with the same key and the same Debug rendering (struct clones) *)\n");
+        t.push_str("From Sq Require Import Base.Bytes Cache.Model Cache.Proofs.\nOpen Scope N_scope.\n");
+        t.push_str(&format!(
+            "Definition option_keys : list (N * N) := {}.\n",
+            g_list(k.iter().filter_map(|&n| g.keys[n].map(|key| format!("({},{})", cls[&n], key))))
+        ));
+        t.push_str(&format!("Theorem keys_injective_{d} : keys_inj_b option_keys = true.\nProof. vm_compute. reflexivity. Qed.\n"));
+        t.push_str(&format!(
+            "Theorem {d}_key_determines_option : forall c1 c2 k, In (c1, k) option_keys -> In (c2, k) option_keys -> c1 = c2.\nProof. exact (keys_inj_sound option_keys keys_injective_{d}). Qed.\nPrint Assumptions {d}_key_determines_option.\n"
+        ));
+        std::fs::write(format!("{}/Keys_{}.v", gen_dir, d), t).unwrap();
+        out.stat(json!({"dialect": d, "option_set_K": k.len(), "K_without_key": nokey.len(), "K_key_clashes": clashes.len(), "reachable_shared_key_groups": shared_any}));
+    }
+    out.absorb(buf);
+}
+
+fn deep(g: &Graph, n: usize, depth: usize) -> String {
+    let kids = |v: &Vec<usize>| v.iter().map(|&c| deep(g, c, depth.saturating_sub(1))).collect::<Vec<_>>().join(", ");
+    if depth == 0 {
+        return format!("{}#{}", g.describe(n), n);
+    }
+    match &g.nodes[n] {
+        Node::Seq { elems, terms, .. } => format!("Seq#{}[{}]{{T:{}}}", n, kids(elems), kids(terms)),
+        Node::AnyOf { elems, terms, .. } => format!("AnyOf#{}[{}]{{T:{}}}", n, kids(elems), kids(terms)),
+        Node::Delim { elems, .. } => format!("Delim#{}[{}]", n, kids(elems)),
+        Node::Brack { elems, .. } => format!("Brack#{}[{}]", n, kids(elems)),
+        Node::NodeM { g: gr, .. } => format!("{}#{} -> {}", g.describe(n), n, deep(g, *gr, depth - 1)),
+        _ => format!("{}#{}", g.describe(n), n),
+    }
+}
+
+fn explain_clashes(d: &str) {
+    let dialect = dialect_of(d);
+    let g = Graph::build(d, &dialect);
+    let (order, parent) = g.reach();
+    let k = option_set(&g, &order);
+    let mut by_key: BTreeMap<u32, Vec<usize>> = BTreeMap::new();
+    for &n in &k {
+        if let Some(key) = g.keys[n] {
+            by_key.entry(key).or_default().push(n);
+        }
+    }
+    let cls = behaviour_classes(&g, &k);
+    for (key, ns) in by_key.iter().filter(|(_, v)| v.iter().map(|n| cls[n]).collect::<BTreeSet<_>>().len() > 1) {
+        println!("== key {}", key);
+        for &n in ns {
+            let path: Vec<String> = g.path_to(&parent, n).iter().map(|&p| format!("{}#{}", g.describe(p), p)).collect();
+            println!("  node {}: {}", n, deep(&g, n, 2));
+            println!("     path: {}", path.join(" > "));
+            // who holds it as an option
+            for &m in &order {
+                let holds = match &g.nodes[m] {
+                    Node::AnyOf { elems, terms, .. } => elems.contains(&n) || terms.contains(&n),
+                    Node::Delim { delim, elems, terms } => *delim == n || elems.contains(&n) || terms.contains(&n),
+                    Node::Ref { terms, .. } | Node::Seq { terms, .. } | Node::Brack { terms, .. } | Node::Anything { terms } => terms.contains(&n),
+                    _ => false,
+                };
+                if holds {
+                    println!("     option/terminator of {}#{}", g.describe(m), m);
+                }
+            }
+        }
+    }
+}
+
+pub fn main(args: &Args) {
+    silence_panics();
+    let mut out = Out::new(&args.out);
+    let gen_dir = args.flag("--gen-dir").unwrap_or_else(|| "/tmp/sqv-c13-gen".into());
+    std::fs::create_dir_all(&gen_dir).unwrap();
+    let mut dialects = HashMap::new();
+    for d in DIALECTS {
+        dialects.insert(d.to_string(), Arc::new(dialect_of(d)));
+    }
+    let sh = Shared { dialects };
+
+    if let Some(path) = args.flag("--replay-input") {
+        let v: Value = serde_json::from_str(&std::fs::read_to_string(path).unwrap()).unwrap();
+        let it = Item { dialect: v["dialect"].as_str().unwrap_or("ansi").to_string(), cls: "replay", name: "replay".into(), sql: v["sql"].as_str().unwrap_or("").to_string() };
+        let mut buf = Buf::default();
+        run_item(&sh, &it, &mut buf);
+        record_item(&sh, &it, 40, &mut buf);
+        out.absorb(buf);
+        out.finish();
+        return;
+    }
+
+    if let Some(d) = args.flag("--explain-clashes") {
+        explain_clashes(&d);
+        return;
+    }
+    static_keys(&mut out, &gen_dir);
+    watchdog(args.out.clone(), if args.thorough() { 600 } else { 240 });
+
+    let items = gen_items(args);
+    par_run(&mut out, &items, || (), |_, it, buf| run_item(&sh, it, buf));
+
+    // correspondence: recorded longest_match calls of a sample of the inputs
+    let step = if args.thorough() { 6 } else { 12 };
+    let rec_items: Vec<Item> = items.iter().step_by(step).cloned().collect();
+    par_run(&mut out, &rec_items, || (), |_, it, buf| record_item(&sh, it, 6, buf));
+
+    // concurrent parses of the same inputs on threads sharing one dialect instance
+    let sample: Vec<&Item> = items.iter().filter(|i| i.cls == "corpus").step_by(if args.thorough() { 2 } else { 8 }).collect();
+    let nthreads = 8;
+    let results: Vec<Vec<String>> = std::thread::scope(|sc| {
+        let hs: Vec<_> = (0..nthreads)
+            .map(|t| {
+                let sample = &sample;
+                let sh = &sh;
+                sc.spawn(move || {
+                    verif_switches::set(false, false);
+                    // different threads walk the list from different offsets so that the shared
+                    // dialect's lazily initialised hints are raced
+                    let n = sample.len();
+                    let mut res = vec![String::new(); n];
+                    for j in 0..n {
+                        let i = (j + t * n / nthreads) % n;
+                        res[i] = outcome(&parse_with(&sh.dialects[&sample[i].dialect], &sample[i].sql));
+                    }
+                    res
+                })
+            })
+            .collect();
+        hs.into_iter().map(|h| h.join().unwrap()).collect()
+    });
+    let mut buf = Buf::default();
+    for (i, it) in sample.iter().enumerate() {
+        let same = results.iter().all(|r| r[i] == results[0][i]);
+        let key = format!("threads:{}:{:016x}", it.dialect, h64(&it.sql));
+        buf.direct("parallel-shared-dialect", same, &key, "parse results differ between threads sharing one dialect", json!({"dialect": it.dialect, "sql": it.sql, "results": results.iter().map(|r| r[i].clone()).collect::<Vec<_>>()}));
+    }
+    out.absorb(buf);
+    out.finish();
 }
